@@ -41,6 +41,13 @@ CHECKS = {
                 text="worker_init_fn of KDWrapper / KDSubset / KDConcatDataset / ModeWrapper / interleaved concat dataset reaches every child; KDDataset re-seeds every registered collator; a transform's hook rebinds its generator from the "
                      "worker's global RNG and (through set_rng, C07) every member at any depth; every sample wrapper that owns transforms has a hook reaching them. The statistical clause ('never replay one another's stream, not even in part') is not applicable and says so in the evidence",
                 note=TRUST + "; torch seeds each worker's global numpy RNG (DataLoader contract)"),
+    "C10": dict(level="exploration", technique="run-time contract (the property's postcondition) on the real KDMixCollator.collate over id-encoded batches, labelled bounded; plus contract-based deductive verification of the partner sequence of shuffle() per mode and of the constructor's probability split (AST->SMT), and a frame obligation (one index for operation, box and weight in the per-sample loop)",
+                text="bounded: batch sizes, shapes, mixup/cutmix splits, apply/lambda/shuffle modes and seeds stated in the evidence; the proved lemmas do not by themselves imply the property "
+                     "(per-pixel tensor algebra with aliasing is outside the verified subset), so the claim is exploration, not proof",
+                note=TRUST + "; bounded part: only the enumerated configurations"),
+    "C11": dict(level="exploration", technique="run-time contract (the property's postcondition) on the real KDMixWrapper.__getitem__ over id-encoded datasets, labelled bounded; frame obligations on the AST (one partner draw and one weight per item, used for both data and label; no in-place write to the dataset's values)",
+                text="bounded: dataset sizes, shapes, p / mode settings and seeds stated in the evidence; the frame obligations are deductive but do not by themselves imply the convex-combination clause",
+                note=TRUST + "; bounded part: only the enumerated configurations"),
     "C12": dict(level="proof", technique="contract-based deductive verification (AST->SMT, z3+cvc5) over integer-sequence terms; frame check for rank independence; bounded oracle",
                 text="per-rank stream == strided slice of one global draw keyed by seed+epoch, length == len(sampler), repeats occupy consecutive slots: "
                      "postconditions at the yield sites of DistributedSampler/RandomSampler/WeightedSampler.__iter__, lengths of ClassBalancedSampler, all discharged; "
